@@ -119,7 +119,13 @@ func (ee *exprEval) evalTransform(assign Scope, x *sysl.Expr_Transform_, e *sysl
 	}
 	argValue := Eval(ee, assign, arg)
 	dotValue, hasDot := assign["."]
+	// the scope variable may shadow an outer binding: put that binding back afterwards
+	scopeVarName := x.Transform.Scopevar
+	scopeVarValue, hasScopeVar := assign[scopeVarName]
 	defer func() {
+		if hasScopeVar && scopeVarName != "." {
+			assign[scopeVarName] = scopeVarValue
+		}
 		if hasDot {
 			assign["."] = dotValue
 		}
